@@ -100,6 +100,14 @@ def run(ctx):
                 "session": ac.gen_edit_ops(ctx.rng, cs0, cases.LABELS_SMALL, 3)}
         ctx.begin_case(case)
         check_case(ctx, case)
+    # near-tie sweep (see _align_common.near_tie_cases): a solver that stops within a gap, or breaks near-ties by a secondary
+    # criterion, returns the dearer side
+    ks = [k for k in range(-40, 41) if (k + 40) % ctx.nshards == ctx.shard]
+    for i, cspec in enumerate(ac.near_tie_cases(ctx.rng, ks)):
+        case = {"continuum": cspec, "dissim": {"kind": "positional", "delta": 1.0}, "backend": "cbc" if i % 2 else "glpk", "want": "auto"}
+        ctx.begin_case(case)
+        ctx.observe("family", "near-tie-sweep")
+        check_case(ctx, case)
     n_cases = ctx.scale(250, 6000)
     for _ in range(n_cases):
         if ctx.out_of_time():
